@@ -1,72 +1,30 @@
-"""Known-finding classifiers for C12 (std.format).  Each recognises one defect by its observable."""
+"""Known-finding classifiers for C12 (std.format).  Each recognises one defect by its observable.
 
-_I64 = 1 << 63
-
-
-def _text(a):
-    return a.get("ok") if isinstance(a, dict) and isinstance(a.get("ok"), list) else None
-
-
-def _nums(vals):
-    for v in vals:
-        if v.get("k") == "num":
-            yield v
-        elif v.get("k") == "obj":
-            yield from _nums([f[1] for f in v.get("f", [])])
+The three classifiers of round 1 (`c12_render_integer_saturates_at_i64`,
+`c12_char_of_negative_number_is_nul`, `c12_float_precision_65535_overflows_u16`) were retired in
+round 2: the defects are repaired in the repository (`fix:` commits, listed as `fixed` entries in
+known_findings.jsonl) and the Stmt/counterexample/partial triples became the full theorems
+`int_conv_full`, `char_conv_spec` and `float_precision_limit` of Props/C12.lean.
+"""
 
 
-def _fmt(op):
-    return "".join(chr(c) for c in op.get("fmt", []))
-
-
-def c12_render_integer_saturates_at_i64(op, impl, model, args):
-    """render_integer does `iv.floor() as i64`: an integer part (of the value, or of the scaled
-    fraction) >= 2^63 is printed as 9223372036854775807.  Observable: both sides produce text, the
-    faithful model reproduces the implementation's text, and a number >= 2^63 reaches an
-    integer/fixed conversion."""
-    if op.get("op") != "fmt" or _text(impl) is None or _text(model.get("spec", {})) is None:
+def c12_float_digits_inexact_beyond_2_53(op, impl, model, args):
+    """render_float generates the decimal digits in double arithmetic (`|v| * 10^precision + 0.5`,
+    `floor`, `%`): once |v| * 10^precision reaches 2^53 the product is rounded and the digits after
+    the 16th/17th significant one are noise ("%f" % 1e21 prints ...000.555072 where the exact
+    expansion is ...000.000000).  The Lean reference takes the digits as an oracle, so this is only
+    observable against CPython (exact digits).  Matches: the CPython stage marked the case as
+    beyond 2^53, both sides produced text, the texts have the same length and agree on the first
+    15 significant digits."""
+    if not impl.get("beyond_2_53") or not isinstance(impl.get("ok"), list) or not isinstance(impl.get("cpython"), str):
         return False
-    if _text(model.get("model", {})) != _text(impl):
+    got, want = "".join(chr(c) for c in impl["ok"]), impl["cpython"]
+    if len(got) != len(want):
         return False
-    if not any(c in _fmt(op) for c in "diuoxXfFgG"):
+    dg = [c for c in got if c.isdigit()]
+    dw = [c for c in want if c.isdigit()]
+    while dg and dw and dg[0] == "0" and dw[0] == "0":
+        dg, dw = dg[1:], dw[1:]
+    if dg[:15] != dw[:15]:
         return False
-    for v in _nums(op.get("vals", [])):
-        if int(v["whole"]) >= _I64:
-            return True
-        for tab in ("fix", "sci"):
-            for p, w, f in v.get(tab, []):
-                if int(w) >= _I64 or int(f) >= _I64:
-                    return True
-    return False
-
-
-def c12_char_of_negative_number_is_nul(op, impl, model, args):
-    """`%c` casts the double with `as u32`, which maps every negative number to 0: a NUL is written
-    (and formatting goes on, possibly into a later error) where the reference reports an invalid
-    code point.  Observable: reference says `codepoint`, the faithful model reproduces the
-    implementation's answer, a number <= -1 is among the values and the format has a %c."""
-    if op.get("op") != "fmt" or "c" not in _fmt(op):
-        return False
-    if model.get("spec") != {"err": "codepoint"}:
-        return False
-    t = _text(impl)
-    if t is not None:
-        if 0 not in t or _text(model.get("model", {})) != t:
-            return False
-    elif impl.get("err") in ("codepoint", "panic") or model.get("model", {}).get("err") != impl.get("err"):
-        return False
-    return any(v["neg"] and int(v["whole"]) >= 1 for v in _nums(op.get("vals", [])))
-
-
-def c12_float_precision_65535_overflows_u16(op, impl, model, args):
-    """render_float computes `dot_size + precision` in u16: precision 65535 (only reachable as
-    `%.65535f` or `*` = 65535) overflows -> panic in overflow-checked builds (and 10^65535 = inf,
-    so the digits would be NaN anyway)."""
-    if op.get("op") != "fmt" or impl.get("err") != "panic":
-        return False
-    if "add with overflow" not in impl.get("_msg", "") or model.get("model") != {"err": "panic"}:
-        return False
-    f = _fmt(op)
-    if not any(c in f for c in "eEfFgG"):
-        return False
-    return ".65535" in f or (".*" in f and any(int(v["whole"]) == 65535 for v in _nums(op.get("vals", []))))
+    return [c for c in got if not c.isdigit()] == [c for c in want if not c.isdigit()]
